@@ -8,7 +8,8 @@ THEOREMS = ['C14_cursor_visits_snapshot', 'C14_query_snapshot_at_first_next', 'C
             'C14_retract_at_most_once_from_init', 'C14_no_lost_update', 'C14_cursor_finite', 'C14_retract_goal_finite',
             'C14_compiled_no_lost_update', 'C14_compiled_retract_at_most_once', 'C14_retract_cursor_in_snapshot_order',
             'C14_compiled_run_is_cursor_history', 'C14_compiled_cursor_visits_snapshot', 'C14_compiled_history_no_lost_update',
-            'C14_compiled_cut_not_propagated', 'C14_compiled_cut_ends_own_clause_only']
+            'C14_compiled_cut_not_propagated', 'C14_compiled_cut_ends_own_clause_only',
+            'C14_retract_answer_is_stored', 'C14_after_clear_only_new_facts']
 RULE = ('(a) event histories with 1-4 simultaneously suspended cursors (queries and retracts, started through the API, '
         'compiled clauses, call/1 and goals held in variables) mostly on ONE predicate, with asserta/assertz/retractall/'
         'clear and answers of other retract cursors between any two next(); all predicates read back after every event; '
@@ -69,7 +70,10 @@ def gen_prog(rng):
         vals = rng.sample(pool, min(n, len(pool)))
     else:
         vals = [rng.choice(pool[:4]) for _ in range(n)]
-    kind = rng.choice(['snap', 'snap', 'drain', 'drainq', 'rotate', 'copy', 'copya', 'counter', 'susp', 'renew', 'snap_retract'])
+    kind = rng.choice(['snap', 'snap', 'drain', 'drainq', 'rotate', 'copy', 'copya', 'counter', 'susp', 'renew', 'snap_retract',
+                       'keyed', 'keyed', 'wipe'])
+    if kind == 'keyed':
+        return gen_keyed_prog(rng)
     c = {'kind': 'prog', 'template': kind, 'facts': {'p': [[_tv(v)] for v in vals]}, 'read': [['p', 1]]}
     def rop():
         return (rng.choice(['asserta', 'assertz', 'assertz', 'retractall']), rng.choice(pool[:5]))
@@ -148,6 +152,19 @@ def gen_prog(rng):
         c['expect_answers'] = [[]]
         c['expect_db'] = {'p': [], 'q': [[_tv(v)] for v in vals[:1]]}
         c['loops'] = len(vals)
+    elif kind == 'wipe':
+        # round 4: clear() called by a Python predicate INSIDE the loop, while the enumerating goal is suspended: a retract
+        # finds none of its remaining candidates in the new store and ends; a query goes on in the list it read
+        ret = rng.random() < 0.6
+        again = rng.random() < 0.4
+        goal = 'retract(p(X))' if ret else 'p(X)'
+        c['source'] = 'go :- %s, tick, wipe, %sassertz(moved(X)), fail.\ngo.\n' % (goal, 'assertz(p(X)), ' if again else '')
+        c['query'] = ['go', 0]
+        c['read'] = [['p', 1], ['moved', 1]]
+        c['expect_answers'] = [[]]
+        seen = vals[:1] if ret else vals
+        c['expect_db'] = {'p': [[_tv(v)] for v in (seen[-1:] if again else [])], 'moved': [[_tv(v)] for v in seen[-1:]]}
+        c['loops'] = len(seen)
     elif kind == 'renew':
         # a suspended retract must not lose facts that were added meanwhile
         front = rng.random() < 0.5
@@ -161,6 +178,39 @@ def gen_prog(rng):
         c['loops'] = len(vals)
     return c
 
+def gen_keyed_prog(rng):
+    """round 4: a TABLE p(Key, Value) of 3 / about 16 / 20-40 rows (keys: atoms only, or atoms, integers and a variable
+    mixed) and a failure-driven loop of compiled code over the rows of ONE key, called with the key bound, that adds to /
+    rotates the rows of that same key while it enumerates them:
+        go(K) :- p(K, X), tick, assertz(p(K, new(X))), fail.            go(_).
+        go(K) :- retract(p(K, X)), tick, assertz(p(K, X)), fail.        go(_).
+    The logical update view prescribes the result (written out below); a step budget catches a loop that does not end."""
+    n = rng.choice([3, 8, 15, 16, 16, 17, 20, 24, 33, 40])
+    mixed = rng.random() < 0.4
+    rows = []
+    for i in range(n):
+        q = rng.random()
+        if mixed and q < 0.15:
+            k = ['v', 0]
+        elif mixed and q < 0.3:
+            k = ['i', 1]
+        else:
+            k = ['a', rng.choice(['a', 'a', 'b', 'c'])]
+        rows.append([k, ['i', i]])
+    key = ['a', 'a'] if rng.random() < 0.8 else rng.choice([['a', 'b'], ['i', 1] if mixed else ['a', 'c']])
+    hit = [r for r in rows if r[0] == key or r[0][0] == 'v']
+    c = {'kind': 'prog', 'template': 'keyed', 'facts': {'p': rows}, 'read': [['p', 2]], 'query': ['go', 1], 'qargs': [key],
+         'expect_answers': [[key]], 'loops': len(hit), 'rows': n, 'budget': 10 * n + 50}
+    if rng.random() < 0.6:
+        front = rng.random() < 0.25
+        c['source'] = 'go(K) :- p(K, X), tick, %s(p(K, new(X))), fail.\ngo(_).\n' % ('asserta' if front else 'assertz')
+        new = [[key, ['f', 'new', [r[1]]]] for r in hit]
+        c['expect_db'] = {'p': (list(reversed(new)) + rows) if front else (rows + new)}
+    else:
+        c['source'] = 'go(K) :- retract(p(K, X)), tick, assertz(p(K, X)), fail.\ngo(_).\n'
+        c['expect_db'] = {'p': [r for r in rows if r not in hit] + [[key, r[1]] for r in hit]}
+    return c
+
 class Budget(Exception):
     pass
 
@@ -170,10 +220,17 @@ def run_prog(case):
     count = [0]
     def tick():
         count[0] += 1
-        if count[0] > STEP_BUDGET:
+        if count[0] > case.get('budget', STEP_BUDGET):
             raise Budget()
         yield False
     yp.register_function('tick', tick)
+    def wipe():
+        # an application that resets the engine from a callback; it registers its Python predicates again
+        yp.clear()
+        yp.register_function('tick', tick)
+        yp.register_function('wipe', wipe)
+        yield False
+    yp.register_function('wipe', wipe)
     yp.load_script_from_string(compiler.compile_prolog_from_string(case['source']))
     T0 = terms.ImplTerms(yp)
     for name, rows in case['facts'].items():
@@ -185,7 +242,7 @@ def run_prog(case):
     try:
         for _ in range(case.get('repeat', 1)):
             T = terms.ImplTerms(yp)
-            vs = [T.var(i) for i in range(ar)]
+            vs = [T.build(t) for t in case['qargs']] if case.get('qargs') else [T.var(i) for i in range(ar)]
             g = yp.query(name, vs)
             for _ in g:
                 answers.append(D.canon_args([terms.term_obs(T.read(v)) for v in vs]))
@@ -210,7 +267,7 @@ def prog_oracle(case, io):
     if not isinstance(io, dict):
         return None
     if io['end'] == 'budget':
-        return 'the program did not terminate within %d steps (answers so far: %d)' % (STEP_BUDGET, len(io['answers']))
+        return 'the program did not terminate within %d steps (answers so far: %d)' % (case.get('budget', STEP_BUDGET), len(io['answers']))
     if io['end'] != 'done':
         return io['end']
     reps = case.get('repeat', 1)
@@ -253,7 +310,19 @@ def gen(rng, tier):
         cases.append(c)
     for i in range(30 if tier == 'quick' else 500):
         cases.append(D.decorate_py(rng, D.gen_dbprog(rng, loopy=0.7)))
-    return cases
+    # round 4: suspended goals on predicates of every size class (see C07) with updates in between; clear() while suspended
+    extra = [D.gen_big_history(rng) for i in range(40 if tier == 'quick' else 500)]
+    extra += [D.gen_clear_history(rng) for i in range(30 if tier == 'quick' else 500)]
+    for c in extra:
+        c['kind'] = 'events'
+    if tier != 'quick':
+        # thresholds beyond 64 facts (thorough tier only: the printed read-backs are large)
+        big = [D.gen_big_history(rng, sizes=[100, 127, 128, 129, 200, 255, 256, 257]) for i in range(40)]
+        for c in big:
+            c['kind'] = 'events'
+        extra += big
+    extra += [D.gen_dbprog_grown(rng, loopy=0.7) for i in range(30 if tier == 'quick' else 500)]
+    return D.spread(cases, extra)
 
 def builtin_corpus():
     v = lambda i: ['v', i]
@@ -366,7 +435,8 @@ def describe(case):
     if case.get('kind') == 'dbprog':
         return D.prog_describe(case)
     if case.get('kind') == 'prog':
-        return {'facts': {k: [terms.show_term(r[0]) for r in v] for k, v in case['facts'].items()}, 'program': case['source'],
+        return {'facts': {k: [','.join(terms.show_term(x) for x in r) for r in v] for k, v in case['facts'].items()}, 'program': case['source'],
+                'query_args': [terms.show_term(t) for t in case.get('qargs', [])],
                 'query': case['query'], 'repeat': case.get('repeat', 1)}
     return [D.show_event(e) for e in case['events']] + (['term objects: %r' % case['objects']] if case.get('objects') else [])
 
